@@ -13,6 +13,7 @@
 import BufrModel.Basic.Desc
 import BufrModel.Gen.PyTables
 import BufrModel.Lemmas.BuildSrc
+import BufrModel.Props.C14
 namespace Bufr
 open PyGen.tables
 
@@ -125,5 +126,51 @@ open Bufr.BuildSrc in
     (checked on the real function: `_descriptors_from_ids(b, c, r, d, [101000])` raises StopIteration) -/
 example : _descriptors_from_ids_iter (envOf { b := fun _ => none, d := fun _ => none } 5) 3 [101000] =
     .error (.raised "StopIteration") := by rfl
+
+/-! ### `BufrTemplate.original_descriptor_ids` and the round trip on the source -/
+
+open Bufr.BuildSrc PyGen.descriptors in
+/-- **`original_descriptor_ids` as translated from the source is the model's queue algorithm `originalIdsQ`** (hence
+    `originalIds`, `originalIdsQ_eq`), on the object tree of every member list of the model and for every fuel above
+    its size; no exception (no `AttributeError` from `member.factor.id`: a delayed replication of the model has its
+    factor), the loop terminates. -/
+theorem C14_src_flatten_eq (t : List Desc) (fuel : Nat) (hf : sizeL t < fuel) :
+    BufrTemplate.original_descriptor_ids eid fuel (reprL t) = .ok ((originalIds t).map Int.ofNat) := by
+  unfold BufrTemplate.original_descriptor_ids
+  rw [walk_eq fuel t [] hf, originalIdsQ_eq]
+  rfl
+
+open Bufr.BuildSrc PyGen.descriptors in
+/-- **The C14 round trip stated on the source**: for every table group that loads (`Loads`) and files its Table B
+    entries under their own id (`Keyed`), every id list from which a template can be built, and sufficient fuel, the
+    regenerated `original_descriptor_ids` applied to what the regenerated `_descriptors_from_ids_iter` returns gives back
+    the id list.  From `C14_src_build_eq`, `C14_src_flatten_eq` and the model's `C14_flatten_build`. -/
+theorem C14_src_flatten_build_id (T : Tables) (hK : T.Keyed) (depth : Nat) (hL : Loads T depth) (ids : List Nat)
+    (t : List Desc) (ht : buildD T (depth + 1) ids = .ok t) (fuel fuel2 : Nat) (hf : ids.length < fuel)
+    (hf2 : sizeL t < fuel2) :
+    (_descriptors_from_ids_iter (envOf T depth) fuel (ids.map Int.ofNat) >>= fun ds =>
+      BufrTemplate.original_descriptor_ids eid fuel2 ds) = .ok (ids.map Int.ofNat) := by
+  rw [C14_src_build_eq T depth hL ids fuel hf, ht]
+  show BufrTemplate.original_descriptor_ids eid fuel2 (reprL t) = _
+  rw [C14_src_flatten_eq t fuel2 hf2, C14_flatten_build T hK (depth + 1) ids t ht]
+
+open Bufr.BuildSrc in
+/-- … and when no template can be built (a delayed replication without its factor) the builder raises, so nothing is
+    flattened -/
+theorem C14_src_flatten_build_fails (T : Tables) (depth : Nat) (hL : Loads T depth) (ids : List Nat) (e : Err)
+    (ht : buildD T (depth + 1) ids = .error e) (fuel : Nat) (hf : ids.length < fuel) :
+    _descriptors_from_ids_iter (envOf T depth) fuel (ids.map Int.ofNat) = .error (.raised "StopIteration") := by
+  rw [C14_src_build_eq T depth hL ids fuel hf, ht]
+
+open Bufr.BuildSrc in
+/-- the hypotheses are satisfiable -/
+example : ∃ (T : Tables) (ids : List Nat) (t : List Desc), T.Keyed ∧ Loads T 5 ∧ buildD T 6 ids = .ok t :=
+  ⟨{ b := fun _ => none, d := fun _ => none }, [], [], (by intro id e h; cases h), (by intro id ms h; cases h),
+   (by rw [buildD])⟩
+
+open Bufr.BuildSrc in
+/-- the object tree determines the tree of the model: `C14_src_build_eq` pins the result of `buildD`, not just a
+    projection of it -/
+theorem C14_src_repr_injective (a b : List Desc) (h : reprL a = reprL b) : a = b := reprL_inj a b h
 
 end Bufr
